@@ -123,13 +123,18 @@ def make_tag():
     return h
 
 
-def make_union_real(n: int):
-    """A real UnionType with n variants (n is scaffolding: 2, 3, 255, 256, 257, ...)."""
+def make_union_real(n: int, consts: int = 0):
+    """A real UnionType with n variants (n is scaffolding: 2, 3, 255, 256, 257, ...) and `consts` constants."""
     import pydsdl
 
     def h(flag: bool) -> typing.Any:
+        from pydsdl import _expression as E
+
         fields = [T.prim("u8") if (i % 2 == 0 or not flag) else T.prim("u16") for i in range(n)]
-        t = T.composite("union", fields)
+        cs = [pydsdl.Constant(T.prim("u16"), "K%d" % i, E.Rational(i)) for i in range(consts)]
+        t = T.composite("union", fields, constants=cs)
+        if t.number_of_variants != n or len(t.constants) != consts:
+            return "variant / constant count"
         w = L.tag_width(n)
         if t.tag_field_type.bit_length != w or not isinstance(t.tag_field_type, pydsdl.UnsignedIntegerType):
             return "tag"
@@ -247,6 +252,18 @@ def make_shape_exact(spec: typing.Any, names: typing.List[str], hi: int):
             return "alignment/extent"
         if any(x % t.alignment_requirement for x in got):
             return "length not a multiple of alignment"
+        # expanding / querying the container must leave its members' own sets intact (and vice versa)
+        inner_spec = conc[1] if conc[0] == "delim" else conc
+        if inner_spec[0] in ("struct", "union"):
+            for f, fs in zip(t.inner_type.fields, inner_spec[1]):
+                fw = L.enumerate_set(fs)
+                fg = {x for x in f.data_type.bit_length_set}
+                if fg != fw:
+                    return "after the container was expanded, member %s reports %r, want %r" % (f, sorted(fg), sorted(fw))
+                if {x for x in (f.data_type.bit_length_set % 32)} != {x % 32 for x in fw}:
+                    return "member residues after the container was expanded"
+            if {x for x in t.bit_length_set} != want:
+                return "container set changed after its members were expanded"
         return True
 
     return _arity(h, names)
@@ -473,6 +490,10 @@ def _conditions(tier: str, seed: int) -> typing.List[Cond]:
                     stubs=["sequence object with symbolic len() yielding one representative field type"],
                     witness={"n": 3}, budget=120.0))
     for n in [2, 3, 255, 256, 257] + ([65535, 65536, 65537] if thorough else []):
+        for consts in (2, 300):
+            # constants are not variants: they must not influence the tag width (boundary: n <= 2**k < n + constants)
+            out.append(Cond(PROP, "c02.union-real", make_union_real, {"n": n, "consts": consts}, {"flag": bool}, kind="choice",
+                            assumptions=["union of %d variants and %d constants" % (n, consts)], witness={"flag": True}, budget=120.0))
         out.append(Cond(PROP, "c02.union-real", make_union_real, {"n": n}, {"flag": bool}, kind="choice",
                         assumptions=["n variants alternating uint8 / uint16"], witness={"flag": True}, budget=600.0))
     for spec, names in PSHAPES:
